@@ -172,6 +172,32 @@ M: List[Tuple[str, str, str, str, str]] = [
     ('c12-rewrite-drops-port', 'C12', 'proxy/http/server/reverse.py',
      "                                    if self.choice.port is not None\n                                    else b''",
      "                                    if self.choice.port is not None and self.choice.port != 8080\n                                    else b''"),
+    # ---- C09 ---------------------------------------------------------------
+    ('c09-reverse-order', 'C09', 'proxy/http/proxy/server.py',
+     "        # Invoke plugin.handle_client_request\n        for plugin in self.plugins.values():",
+     "        # Invoke plugin.handle_client_request\n        for plugin in reversed(list(self.plugins.values())):"),
+    ('c09-ignore-none-before-connect', 'C09', 'proxy/http/proxy/server.py',
+     "            if r is None:\n                do_connect = False\n                break\n            self.request = r",
+     "            if r is None:\n                do_connect = False\n                continue\n            self.request = r"),
+    ('c09-close-hook-twice', 'C09', 'proxy/http/proxy/server.py',
+     "        for plugin in self.plugins.values():\n            plugin.on_upstream_connection_close()\n",
+     "        for plugin in self.plugins.values():\n            plugin.on_upstream_connection_close()\n            if self.upstream is not None and self.upstream.closed:\n                plugin.on_upstream_connection_close()\n"),
+    ('c09-request-not-threaded-through', 'C09', 'proxy/http/proxy/server.py',
+     "            r = plugin.handle_client_request(self.request)\n            if r is not None:\n                self.request = r",
+     "            r = plugin.handle_client_request(self.request)\n            if r is not None:\n                self.request = r if len(self.plugins) < 3 else self.request"),
+    ('c09-connect-before-plugins', 'C09', 'proxy/http/proxy/server.py',
+     "            if r is None:\n                do_connect = False\n                break\n            self.request = r\n\n        # Connect to upstream\n        if do_connect:\n            self.connect_upstream()",
+     "            if r is None:\n                do_connect = False\n                break\n            self.request = r\n\n        # Connect to upstream\n        if do_connect or self.request.is_https_tunnel:\n            self.connect_upstream()"),
+    ('c09-access-log-ignores-none', 'C09', 'proxy/http/proxy/server.py',
+     "            ctx = plugin.on_access_log(context)\n            if ctx is None:\n                log_handled = True\n                break\n            context = ctx\n        if not log_handled:\n            self.access_log(context)",
+     "            ctx = plugin.on_access_log(context)\n            if ctx is None:\n                log_handled = True\n                continue\n            context = ctx\n        if not log_handled:\n            self.access_log(context)"),
+    ('c09-revert-dropped-followup-fix', 'C09', 'proxy/http/proxy/server.py',
+     "                            self.pipeline_request = None\n                            return\n", "                            return\n"),
+    ('c09-dns-last-wins', 'C09', 'proxy/http/proxy/server.py',
+     "                    if upstream_ip or source_addr:\n                        break", "                    if upstream_ip and source_addr:\n                        break"),
+    ('c09-reject-after-forward', 'C09', 'proxy/http/proxy/server.py',
+     "                if self.pipeline_request.is_complete:\n                    for plugin in self.plugins.values():",
+     "                if self.pipeline_request.is_complete:\n                    self.upstream.queue(memoryview(self.pipeline_request.build())) if len(self.plugins) > 3 else None\n                    for plugin in self.plugins.values():"),
 ]
 
 
